@@ -65,7 +65,29 @@ func checkPrime[T comparable, PT primeAPI[T]](t *rapid.T, f *kit.F, size int, or
 	if alias == kit.AliasXY || alias == kit.AliasAll {
 		yv, yc = xv, xc
 	}
+	// a quarter of the arithmetic cases: operands solved so that the Montgomery word of the RESULT is a drawn edge word
+	switch op {
+	case "Add", "Sub", "Mul", "Sqr", "Inv":
+		if (alias == kit.AliasNone || alias == kit.AliasZX || alias == kit.AliasZY || op == "Sqr" || op == "Inv") && rapid.IntRange(0, 3).Draw(t, "targeted") == 0 {
+			if tx, ty, tc, ok := f.Targeted(t, op, nil, "tg"); ok {
+				xv, yv, xc, yc = tx, ty, tc, tc
+			}
+		}
+	}
 	x0, y0, junk := from(xv), from(yv), from(jv)
+	// canon: the result must also be the canonical object (same limbs, IsEqual, IsZero as the value says)
+	canon := func(c *kit.Case, z *T, want *big.Int) bool {
+		w := from(want)
+		wantZero := 0
+		if want.Sign() == 0 {
+			wantZero = 1
+		}
+		if *z != w || PT(z).IsEqual(&w) != 1 || PT(&w).IsEqual(z) != 1 || PT(z).IsZero() != wantZero {
+			c.Fail("non-canonical-result", fmt.Sprintf("value 0x%x is right but the element differs from the canonical one", want))
+			return false
+		}
+		return true
+	}
 	for _, alias := range kit.Patterns(alias) {
 		c := &kit.Case{T: t, Type: f.Name, Op: op, Backend: "go", Alias: alias, Vals: []*big.Int{xv, yv}, Classes: []string{xc, yc}}
 		switch op {
@@ -82,7 +104,7 @@ func checkPrime[T comparable, PT primeAPI[T]](t *rapid.T, f *kit.F, size int, or
 			case "Mul":
 				w.Mul(xv, yv)
 			}
-			if !c.Expect("result", to(&z), w.Mod(w, p)) {
+			if !c.Expect("result", to(&z), w.Mod(w, p)) || !canon(c, &z, w) {
 				return
 			}
 			if (alias == kit.AliasNone || alias == kit.AliasZY || alias == kit.AliasXY) && xo != x0 ||
@@ -104,14 +126,14 @@ func checkPrime[T comparable, PT primeAPI[T]](t *rapid.T, f *kit.F, size int, or
 				}
 			}
 			z, _ := kit.Un(alias, fn, x0, junk)
-			if w != nil && !c.Expect("result", to(&z), w.Mod(w, p)) {
+			if w != nil && (!c.Expect("result", to(&z), w.Mod(w, p)) || !canon(c, &z, w)) {
 				return
 			}
 		case "Neg":
 			c.Vals, c.Classes = c.Vals[:1], c.Classes[:1]
 			z := x0
 			PT(&z).Neg()
-			if !c.Expect("result", to(&z), kit.Mod(new(big.Int).Neg(xv), p)) {
+			if wn := kit.Mod(new(big.Int).Neg(xv), p); !c.Expect("result", to(&z), wn) || !canon(c, &z, wn) {
 				return
 			}
 		case "IsZero":
@@ -169,7 +191,7 @@ func checkPrime[T comparable, PT primeAPI[T]](t *rapid.T, f *kit.F, size int, or
 			c.Vals, c.Classes = []*big.Int{wide}, []string{fmt.Sprintf("%d-bytes", n)}
 			z := junk
 			PT(&z).SetBytes(vlib.BE(wide, n))
-			if !c.Expect("residue", to(&z), kit.Mod(wide, p)) {
+			if !c.Expect("residue", to(&z), kit.Mod(wide, p)) || !canon(c, &z, kit.Mod(wide, p)) {
 				return
 			}
 		case "SetString":
